@@ -325,6 +325,15 @@ def decl_sources(style: str, u: str) -> dict[str, tuple[str, list[tuple[str, str
         f"    def __init__(self, p: int) -> None:\n" + d(t("K2iS") + ".", t("K2iD"), 8, params=[("p", "int", t("K2p"))]) + "        self.q = p\n",
         [(t("K2S"), f"Kb{u}", "description", None), (t("K2D"), f"Kb{u}", "description", None)] + ([(t("K2p"), f"Kb{u}", "param", "p")] if structured else []),
     )
+    # methods WITHOUT source (functools.total_ordering adds __gt__/__le__/__ge__) right after a documented method: the
+    # one-entry docstring cache must not hand them the previous element's parameter / result texts (seed C13f)
+    out["K3"] = (
+        f"import functools\n\n\n@functools.total_ordering\nclass Kc{u}:\n" + d(t("K3S") + ".", t("K3D"), 4) + "\n"
+        f"    def __eq__(self, other: object) -> bool:\n" + d(t("K3eS") + ".", t("K3eD"), 8) + "        return True\n\n"
+        f"    def __lt__(self, other: object) -> bool:\n" + d(t("K3lS") + ".", t("K3lD"), 8, params=[("other", "object", t("K3o"))], results=[("rr", "bool", t("K3r"))]) + "        return True\n",
+        [(t("K3S"), f"Kc{u}", "description", None), (t("K3eS"), "__eq__", "description", None), (t("K3lS"), "__lt__", "description", None)]
+        + ([(t("K3o"), "__lt__", "param", "other"), (t("K3r"), "__lt__", "result", rname)] if structured else []),
+    )
     return out
 
 
@@ -370,6 +379,11 @@ def part_b(rep: Report, tier: str) -> None:
         ds = decl_sources(style, u)
         src = f"import os\n\nXV{u} = 1\n\"\"\"TKVAR{u} describes the variable.\"\"\"\n\n\n" + ds["F2"][0]
         units.append(("module-without-docstring", style, f"d{u}", src, [*ds["F2"][1], (f"TKVAR{u}", None, "absent", None)], None))
+        # a class with source-less generated methods, alone and on either side of a documented function
+        for order in (("K3",), ("F1", "K3"), ("K3", "F1"), ("K2", "K3", "F2")):
+            u = f"{next(uid):05d}"
+            ds = decl_sources(style, u)
+            units.append((f"generated-methods:{'>'.join(order)}", style, f"d{u}", "\n\n".join(ds[n][0] for n in order), [e for n in order for e in ds[n][1]], None))
         mnames = ["m1", "m2", "xi", "pr", "st"]
         mperms = list(itertools.permutations(mnames, 3)) if tier == "thorough" else list(itertools.permutations(mnames[:4], 3))
         for perm in mperms:
